@@ -560,9 +560,11 @@ Varable failures: {var_failed}
                 dt = np.diff(times)
                 if not (dt[0] == dt).all():
                     warn('New time is unstructured')
-                outf.TSTEP = int(
-                    (datetime.datetime(1900, 1, 1, 0) +
-                     dt[0]).strftime('%H%M%S'))
+                # hours may exceed 23, so strftime cannot be used
+                dts = int(dt[0].total_seconds())
+                outf.TSTEP = (
+                    dts // 3600 * 10000 + dts % 3600 // 60 * 100 + dts % 60
+                )
 
         outf.updatemeta()
         return outf
